@@ -901,6 +901,49 @@ v5_ack_long_props!(c02_v5_pubrec_props128, GenericPubrec, PubrecReasonCode, 0x50
 v5_ack_long_props!(c02_v5_pubrel_props128, GenericPubrel, PubrelReasonCode, 0x62, 125);
 v5_ack_long_props!(c02_v5_pubcomp_props128, GenericPubcomp, PubcompReasonCode, 0x70, 125);
 
+// lighter variant of the above: a concrete-shape body whose property section is 128 bytes (two-byte Property
+// Length) is parsed, and the parsed packet must report / re-serialise the same lengths (id and one string byte symbolic)
+macro_rules! v5_ack_parse_long_props {
+    ($name:ident, $ty:ident, $fh:expr) => {
+        #[kani::proof]
+        #[kani::unwind(2)]
+        #[kani::stub(core::str::from_utf8, utf8_model)]
+        fn $name() {
+            let id: u16 = kani::any();
+            kani::assume(id != 0);
+            let c: u8 = kani::any();
+            kani::assume(c >= 0x20 && c < 0x7f);
+            let mut body = [b'a'; 133];
+            body[0] = (id >> 8) as u8;
+            body[1] = id as u8;
+            body[2] = 0; // reason code Success
+            body[3] = 0x80; // Property Length 128 = 80 01
+            body[4] = 0x01;
+            body[5] = 31; // Reason String
+            body[6] = 0;
+            body[7] = 125;
+            body[8] = c;
+            let (q, used) = v5_0::$ty::<u16>::parse(&body[..]).unwrap();
+            assert!(used == 133, "[C02,C04] parse consumes exactly the body (two-byte Property Length)");
+            assert!(q.packet_id() == id, "[C02] identifier survives");
+            assert!(q.size() == 136, "[C02,C04] size() of the parsed packet equals the length it was parsed from (two-byte Property Length)");
+            let enc = q.to_continuous_buffer();
+            assert!(enc.len() == 136, "[C02,C04] re-serialisation has the same length");
+            assert!(enc[0] == $fh && enc[1] == 0x85 && enc[2] == 0x01, "[C02,C03] fixed header and Remaining Length 133 = 85 01");
+            assert!(
+                enc[3] == body[0] && enc[4] == body[1] && enc[5] == 0 && enc[6] == 0x80 && enc[7] == 0x01 && enc[8] == 31 && enc[9] == 0 && enc[10] == 125 && enc[11] == c && enc[135] == b'a',
+                "[C02,C03] re-serialised body equals the parsed bytes"
+            );
+            core::mem::forget(enc);
+            core::mem::forget(q);
+        }
+    };
+}
+v5_ack_parse_long_props!(c02_v5_puback_parse_props128, GenericPuback, 0x40);
+v5_ack_parse_long_props!(c02_v5_pubrec_parse_props128, GenericPubrec, 0x50);
+v5_ack_parse_long_props!(c02_v5_pubrel_parse_props128, GenericPubrel, 0x62);
+v5_ack_parse_long_props!(c02_v5_pubcomp_parse_props128, GenericPubcomp, 0x70);
+
 // ------------------------------------------------------------------ v3.1.1 string-carrying packets through the builders
 // CONNECT v3.1.1: client id (1 byte), keep-alive, clean session, optional user name + password
 #[kani::proof]
